@@ -423,9 +423,10 @@ def run(ctx):
     return {
         'stats': st, 'exhaustive': bool(info['fixpoint']),
         'rule': 'explicit-state BFS: every operation of the alphabet (item store, add_item with every index 0..5 / every pos_key incl. an '
-                'unknown one x after x replace, both index and pos_key, delete, pop, pop_at, sort, reverse, clear, MetadataObject append/extend) '
-                'applied to every reachable state over keys a-d; state = (class, ordered items, hidden _order/_values); distinct = distinct '
-                'canonical states; every state is reached by a non-empty history except the two roots',
+                'unknown one x after x replace, both index and pos_key, delete, pop, pop_at, sort (also by key functions with ties), reverse, clear, index reads, '
+                'MetadataObject append/extend from lists, dicts, one-shot iterables and re-ordered ordered maps) applied to every reachable state over keys a-d, '
+                'from 8 roots (empty maps and maps built by the constructor from pairs / repeated keys / tuple / dict / generator); state = (class, ordered '
+                'items, hidden _order/_values and every other attribute); distinct = distinct canonical states',
         'coverage': {'bounds': {'keys': KEYS, 'values': mvals(ctx.quick), 'max_depth': 6 if ctx.quick else 8, 'info': info}},
         'assumptions': ['index relocation = remove the key, then insert at the index named (the key ends up at that position); pos_key == key '
                         'only requires right content and unchanged relative order of the other keys (outside the documented contract)',
